@@ -55,6 +55,13 @@ package main
 //@   call 0 io.WriteString assert scan_reached && scan1 == nil && arg_0 == stdout
 //@   call 0 fmt.Fprintf("%s\n") assert scan_reached && scan1 == nil && arg_0 == stdout
 //@   ensures scan_reached && scan1 != nil ==> result != nil
+// "exits with status 0 only after writing a complete report": a failed write
+// of the report (either format) makes the run fail.
+//@   call 0 fmt.Fprintf("%s\n") as wj
+//@   call 0 io.WriteString as wt
+//@   ensures wj_reached && wj1 != nil ==> result != nil
+//@   ensures wt_reached && wt1 != nil ==> result != nil
+//@   ensures result == nil && scan_reached ==> (wj_reached && wj1 == nil) || (wt_reached && wt1 == nil)
 //@   ensures refs_reached && refs1 != nil ==> result != nil
 //@   ensures fin_reached && fin1 != nil ==> result != nil
 //@   ensures result == nil && scan_reached ==> refs1 == nil && fin1 == nil && scan1 == nil
